@@ -627,6 +627,10 @@ def check(pid, tier, only=None):
                     hashfiles.append(os.path.join(rundir, "hash_%s.bin" % tag))
                 except Exception as e:  # truncated by a crash
                     notes.append("report %s unreadable: %s" % (tag, e))
+            # candidates already written by a process count even if the process later ran out of budget
+            for m in re.finditer(r"CANDIDATE check=(\S+) replay=(\S+)", out or ""):
+                if os.path.exists(m.group(2)):
+                    cands.append((m.group(1), m.group(2)))
             if rc == -999:
                 inconclusive.append("process %s hit the %ds budget" % (tag, timeout))
                 if cfg.get("hang_is_violation"):
@@ -635,8 +639,7 @@ def check(pid, tier, only=None):
                     if os.path.exists(cr) and crumb_to_replay(cr, outp, pid, "hang"):
                         cands.append(("hang", outp))
             elif rc in (0, 1):
-                for m in re.finditer(r"CANDIDATE check=(\S+) replay=(\S+)", out):
-                    cands.append((m.group(1), m.group(2)))
+                pass
             else:
                 cr = os.path.join(rundir, "crumb_%s.bin" % tag)
                 outp = os.path.join(rundir, "abort_%s.json" % tag)
@@ -646,6 +649,15 @@ def check(pid, tier, only=None):
                     cands.append((r[0], outp))
                 else:
                     notes.append("process %s died (rc=%s) without breadcrumb: %s" % (tag, rc, err[-500:]))
+
+    # candidate files written by processes whose stdout was lost (killed at the budget)
+    known = {pth for _, pth in cands}
+    for f in glob.glob(os.path.join(rundir, "fail-*.json")):
+        if f not in known:
+            try:
+                cands.append((json.load(open(f)).get("check", "?"), f))
+            except Exception:
+                pass
 
     # 2b. coverage-guided campaigns on the same tape decode (thorough tier)
     fuzz_checks, fuzz_notes = {}, []
